@@ -130,6 +130,8 @@ def run(ctx):
     from .configtime import no_shared_mutable_defaults as _mutdef, selection_not_changed_in_place as _sel_inplace
     _mutdef(ctx, 'C13.R3', classes=('Slicer', 'PlateSlicer', 'Plate'))
     _sel_inplace(ctx, 'C13.R3')
+    from .configtime import stepped_extent_counts_round_up as _ceil
+    _ceil(ctx, 'C13.R3')
     model = ctx.model
     slicer, init, stats = selector_grammar(ctx)
     # a selection handed to a recipe step addresses the same wells when the step is carried out
